@@ -127,6 +127,9 @@ func blockTxs(seed int64, script int, h uint32, chainID uint64) []*types.Transac
 		s = s<<8 | int64(hs[i])
 	}
 	rng := rand.New(rand.NewSource(s))
+	if h%4 == 2 {
+		return nil // a block without any transaction (recovery must replay it all the same)
+	}
 	shape := rng.Intn(8)
 	var txs [][]op
 	switch shape {
